@@ -24,6 +24,7 @@ import S3V.Props.C10
 import S3V.Props.C12
 import S3V.Lemmas.Xfer3
 import S3V.Props.Serial
+import S3V.Gen.Cci
 
 namespace S3V.C04
 open S3V.Exec
@@ -325,6 +326,26 @@ theorem cci_handoff (pre post : List CciOp) :
   split <;> simp_all
 
 example : (([CciOp.dec, .dec].foldl cciApply (([CciOp.inc, .inc].foldl cciApply S3V.Sema.Cci.init).finalize.1)).fired) = 1 := by decide
+
+/-- The tie to the source: `Gen.cciIncrement / cciDecrement / cciFinalize` are translated path by path from
+`utils.CountCallbackInvoker` on every run (`extract.gen_cci`); they are the model's functions, so
+`cci_handoff` is a statement about the code. -/
+theorem cci_from_source (c : S3V.Sema.Cci) :
+    Gen.cciIncrement c = c.increment ∧ Gen.cciDecrement c = c.decrement ∧ Gen.cciFinalize c = c.finalize := by
+  refine ⟨?_, ?_, ?_⟩
+  · simp only [Gen.cciIncrement, S3V.Sema.Cci.increment]
+  · simp only [Gen.cciDecrement, S3V.Sema.Cci.decrement]
+    by_cases h0 : c.count = 0
+    · simp [h0]
+    · by_cases h1 : c.count = 1
+      · cases hf : c.finalized <;> simp [h1]
+      · have : c.count - 1 ≠ 0 := by omega
+        cases hf : c.finalized <;> simp [h0, h1, this]
+  · simp only [Gen.cciFinalize, S3V.Sema.Cci.finalize]
+    by_cases h0 : c.count = 0 <;> simp [h0]
+
+/-- Counter, flag and callback are only touched under the invoker's lock (what makes one call one step). -/
+theorem cci_locking_from_source : Gen.cciWithoutLock = [] := by decide
 
 /-! ### the three stages in a row
 
